@@ -1138,7 +1138,9 @@ def units(tier: str, vseed: int) -> list:
     step = 4000 if tier == "quick" else 20000
     for lo in range(0, total, step):
         out.append({"kind": "schema_sweep", "lo": lo, "hi": min(lo + step, total), "maxlen": sweep_len, "alphabet": NAME_ALPHABET})
-    return out
+    from .runner import interleave
+
+    return interleave(out, lambda u: u["kind"])
 
 
 def run_unit(unit: dict):
